@@ -1,2 +1,60 @@
-(* PropsC17.v — C17: parse.Value accepts every JSON value and reads it back faithfully. *)
-From Ucfg Require Import Base ParseInt Consts Field Tree F64 ParseValue.
+(* PropsC17.v — C17: parse.Value accepts every JSON value and reads it back faithfully.
+   Statements only; proofs are in ProofsParse.v.
+
+   PARTIAL: the theorems below cover the parser options (each disabled syntax is taken
+   literally, the rejected flag combination) and the faithful reading of single-quoted
+   strings of ANY content at any position. The round trip for all JSON documents (numbers,
+   double-quoted strings with escapes, nesting, layout) is not proved in Coq: it is decided by
+   the correspondence run, where the model parser and the implementation are compared on
+   every short text over the syntax alphabet and on random JSON documents, and the model's
+   result is compared with the data the document was printed from. F21 (JSON escapes that
+   strconv.Unquote does not know) is the known counterexample to the full statement. *)
+From Ucfg Require Import Base ParseInt Consts Field Tree F64 ParseValue ProofsParse.
+
+Theorem c17_array_disabled_is_literal_partial : forall cfg f r stop,
+  c_array cfg = false ->
+  parse_value cfg (S f) (String "["%char r) stop = parse_primitive (String "["%char r) stop.
+Proof. exact array_disabled_is_literal. Qed.
+Print Assumptions c17_array_disabled_is_literal_partial.
+
+Theorem c17_object_disabled_is_literal_partial : forall cfg f r stop,
+  c_object cfg = false ->
+  parse_value cfg (S f) (String "{"%char r) stop = parse_primitive (String "{"%char r) stop.
+Proof. exact object_disabled_is_literal. Qed.
+Print Assumptions c17_object_disabled_is_literal_partial.
+
+Theorem c17_dquote_disabled_is_literal_partial : forall cfg f r stop,
+  c_dq cfg = false ->
+  parse_value cfg (S f) (String """"%char r) stop = parse_primitive (String """"%char r) stop.
+Proof. exact dquote_disabled_is_literal. Qed.
+Print Assumptions c17_dquote_disabled_is_literal_partial.
+
+Theorem c17_squote_disabled_is_literal_partial : forall cfg f r stop,
+  c_sq cfg = false ->
+  parse_value cfg (S f) (String "'"%char r) stop = parse_primitive (String "'"%char r) stop.
+Proof. exact squote_disabled_is_literal. Qed.
+Print Assumptions c17_squote_disabled_is_literal_partial.
+
+Theorem c17_invalid_config_rejected_partial : forall cfg content,
+  c_array cfg = false -> c_object cfg = true -> parse_value_with_config cfg content = PErr PECfg.
+Proof. exact invalid_config_rejected. Qed.
+Print Assumptions c17_invalid_config_rejected_partial.
+
+(* every string without a single quote, written between single quotes, is read back verbatim
+   (no escape processing), followed by whatever text comes next *)
+Theorem c17_single_quoted_string_roundtrip_partial : forall cfg f body rest stop,
+  c_sq cfg = true -> mem_ascii "'"%char body = false ->
+  parse_value cfg (S f) (String "'"%char (body +++ String "'"%char rest)) stop = POk (PStr body, rest).
+Proof. exact squote_value_roundtrip. Qed.
+Print Assumptions c17_single_quoted_string_roundtrip_partial.
+
+(* non-vacuity / the documented behaviours on concrete documents *)
+Theorem c17_examples :
+  parse_value_with_config DefaultConfig "{""a"": [1, -2, 3.5, ""x\ty"", null, true], 'b': {}}"
+  = POk (PObj [("a", PArr [PUint 1; PInt (-2); PFloat 4615063718147915776; PStr ("x" +++ String (ch 9) "y"); PNil; PBool true]); ("b", PNil)])
+  /\ parse_value_with_config DefaultConfig "a,b" = POk (PArr [PStr "a"; PStr "b"])
+  /\ parse_value_with_config {| c_array := true; c_object := true; c_dq := true; c_sq := true; c_nocomma := true |} "a,b"
+     = POk (PStr "a,b")
+  /\ parse_value_with_config NoopConfig "[1, 2]" = POk (PStr "[1, 2]").
+Proof. exact parse_examples. Qed.
+Print Assumptions c17_examples.
